@@ -29,6 +29,11 @@ type c16Case struct {
 	// be cut off by the timeout of the DATA command, which is over). Wall-clock
 	// is only the trigger; on a correct client nothing is armed while it waits.
 	SlowMs int `json:"slow_ms,omitempty"`
+	// SrvWriteTimeoutMs (with SlowMs, buffered transport only): the server's
+	// WriteTimeout, shorter than the producer's pause; it has no ReadTimeout.
+	// A deadline for writing replies says nothing about how long the client
+	// may take to hand the message over.
+	SrvWriteTimeoutMs int `json:"srv_write_timeout_ms,omitempty"`
 	// Prior: an earlier message on the same connection, to PriorRcpts
 	// recipients, with its own verdict; in LMTP mode sent through Data()
 	// (no status callback) when PriorPlainData is set.
@@ -92,6 +97,9 @@ func c16Run(c c16Case) Verdict {
 	}
 	script.Data = []harness.DataPlan{{Read: harness.ReadPlan{Limit: -1}, Result: c.Verdict, Honest: true}}
 	cfg := harness.Config{LMTP: c.LMTP, FragmentReplies: c.Frag, Synchronous: c.Sync}
+	if c.SlowMs > 0 && !c.Sync {
+		cfg.WriteTimeoutMs = c.SrvWriteTimeoutMs
+	}
 	if c.Limited {
 		cfg.MaxMessageBytes = int64(len(c16Normalise(c.Body)) + c.LimitSlack)
 	}
@@ -447,6 +455,7 @@ func c16Gen(t *rapid.T) c16Case {
 	// a few slow-producer cases (each costs its pause in wall-clock time)
 	if rapid.IntRange(0, 2999).Draw(t, "slow")%300 == 25 {
 		c.SlowMs = 200
+		c.SrvWriteTimeoutMs = rapid.SampledFrom([]int{0, 60, 60}).Draw(t, "srv_write_timeout")
 	}
 	nr := rapid.IntRange(1, 3).Draw(t, "nrcpt")
 	for i := 0; i < nr; i++ {
